@@ -358,14 +358,22 @@ def run(prog: Program, L: Ledger) -> None:
     if call is None:
         raise AnalysisError("CompositeMove.__call__ missing")
     bad = None
+    bad_history = ""
     n_runs = 0
     for k in range(0, 4):
         for results in product((False, True), repeat=k):
             log: list = []
-            me = Obj(cm)
-            me.attrs["moves"] = [Stub(f"child{i}", r, log) for i, r in enumerate(results)]
-            ctx = Obj(prog.cls("Context"))
             it = Interp(prog)
+            children = [Stub(f"child{i}", r, log) for i, r in enumerate(results)]
+            try:
+                # the composite as its own constructor leaves it (every attribute __init__ sets, private ones included)
+                me = it.construct(ClsV(cm), [children])
+                if me.attrs.get("moves") is not children:
+                    me.attrs["moves"] = children
+            except (PyRaise, InterpUnsupported):
+                me = Obj(cm)
+                me.attrs["moves"] = children
+            ctx = Obj(prog.cls("Context"))
             try:
                 got = it.call_function(call, [me, ctx], {})
             except PyRaise as exc:
@@ -377,11 +385,34 @@ def run(prog: Program, L: Ledger) -> None:
             if names != [f"child{i}" for i in range(k)] or not args_ok or not (isinstance(got, bool) and got == want):
                 if bad is None:
                     bad = (results, names, got, want)
+                continue
+            # the same composite called again after its element list was changed in place (an element replaced at the same
+            # length, then one appended): what is called is what the list holds *now*
+            if k >= 1 and bad is None:
+                for change in ("replace", "append"):
+                    del log[:]
+                    lst = me.attrs["moves"]
+                    if change == "replace":
+                        lst[0] = Stub("new0", not results[0], log)
+                    else:
+                        lst.append(Stub("extra", False, log))
+                    try:
+                        got2 = it.call_function(call, [me, ctx], {})
+                    except PyRaise as exc:
+                        got2 = f"raises {exc.exc_type}"
+                    n_runs += 1
+                    names2 = [c[0] for c in log]
+                    want_names = [x.name for x in lst]
+                    want2 = any(x.result for x in lst)
+                    if names2 != want_names or not (isinstance(got2, bool) and got2 == want2):
+                        bad = (tuple(x.result for x in lst), names2, got2, want2)
+                        bad_history = f"second call after `moves` was changed in place ({change}): expected [{', '.join(want_names)}]; "
+                        break
     detail = ""
     if bad is not None:
         results, names, got, want = bad
         called = ", ".join(names) or "none"
-        detail = (f"children returning {list(results)}: called [{called}] and returned {got!r}; expected every child called once in order with the context and the result {want}"
+        detail = (bad_history + f"children returning {list(results)}: called [{called}] and returned {got!r}; expected every child called once in order with the context and the result {want}"
                   + (" (any() over a generator short-circuits: elements after the first success are not called)" if len(names) < len(results) else ""))
     L.check(bad is None, "A4", "CompositeMove.__call__", call.where, detail, "composite of a failing and a succeeding move / two succeeding moves", "call")
     L.extra["a4_runs"] = n_runs
